@@ -73,24 +73,25 @@ func runC06(rowsFile string, reserved map[string]map[string]bool, b *hc.Builder)
 			name   string
 			prefix string
 			run    func() (reflect.Value, error)
+			extra  []string // required names outside the document that are missing as well
 		}
 		var readings []reading
 		for v, vn := range []string{"canonical", "reversed-keys", "whitespace", "unknown-fields-first", "unknown-fields-last"} {
 			doc := refJSON(b, row.Json, v)
-			readings = append(readings, reading{"json/" + vn, "", func() (reflect.Value, error) { return decode(flavours()[0], doc, typ) }})
+			readings = append(readings, reading{name: "json/" + vn, prefix: "", run: func() (reflect.Value, error) { return decode(flavours()[0], doc, typ) }})
 		}
 		if row.Nulled != nil {
 			// "absent or null": removed fields written as null members instead (plain, and among unknown fields)
 			for _, v := range []int{0, 3} {
 				doc := refJSON(b, row.Nulled, v)
-				readings = append(readings, reading{[]string{"json/nulled", "", "", "json/nulled-unknown-fields-first"}[v], "", func() (reflect.Value, error) { return decode(flavours()[0], doc, typ) }})
+				readings = append(readings, reading{name: []string{"json/nulled", "", "", "json/nulled-unknown-fields-first"}[v], prefix: "", run: func() (reflect.Value, error) { return decode(flavours()[0], doc, typ) }})
 			}
-			readings = append(readings, reading{"untyped/nulled", "", func() (reflect.Value, error) {
+			readings = append(readings, reading{name: "untyped/nulled", prefix: "", run: func() (reflect.Value, error) {
 				p := reflect.New(typ)
 				return p, p.Interface().(restlicodec.Unmarshaler).UnmarshalRestLi(restlicodec.NewInterfaceReader(b.PlainOf(row.Nulled)))
 			}})
 		}
-		readings = append(readings, reading{"untyped", "", func() (reflect.Value, error) {
+		readings = append(readings, reading{name: "untyped", prefix: "", run: func() (reflect.Value, error) {
 			p := reflect.New(typ)
 			return p, p.Interface().(restlicodec.Unmarshaler).UnmarshalRestLi(restlicodec.NewInterfaceReader(b.PlainOf(row.Json)))
 		}})
@@ -100,8 +101,36 @@ func runC06(rowsFile string, reserved map[string]map[string]bool, b *hc.Builder)
 			if fl.name == "query" {
 				prefix = "p."
 			}
-			readings = append(readings, reading{fl.name, prefix, func() (reflect.Value, error) {
+			readings = append(readings, reading{name: fl.name, prefix: prefix, run: func() (reflect.Value, error) {
 				return decode(fl, refRor2(b, row.Ror2, reserved[fl.ror2], 0, atomText), typ)
+			}})
+		}
+		// query parameters: the document is the value of parameter p; a second required parameter (zz) is missing and a
+		// third one (other) is present: every missing path must be reported together, and `other` must still be read
+		{
+			q := refRor2(b, row.Ror2, reserved["query"], 0, atomText)
+			readings = append(readings, reading{name: "query/with-siblings", prefix: "p.", extra: []string{"zz"}, run: func() (reflect.Value, error) {
+				ptr := reflect.New(typ)
+				qr, err := restlicodec.ParseQueryParams("p=" + q + "&other=5")
+				if err != nil {
+					return ptr, err
+				}
+				otherSeen := false
+				err = qr.ReadRecord(restlicodec.NewRequiredFields().Add("p", "zz"), func(r restlicodec.Reader, field string) error {
+					switch field {
+					case "p":
+						return ptr.Interface().(restlicodec.Unmarshaler).UnmarshalRestLi(r)
+					case "other":
+						otherSeen = true
+						_, e := r.ReadInt32()
+						return e
+					}
+					return r.Skip()
+				})
+				if !otherSeen {
+					return ptr, fmt.Errorf("the present parameter `other` was never handed to the decoder (error so far: %v)", err)
+				}
+				return ptr, err
 			}})
 		}
 		for _, rd := range readings {
@@ -123,6 +152,11 @@ func runC06(rowsFile string, reserved map[string]map[string]bool, b *hc.Builder)
 					got = append(got, strings.TrimPrefix(p, rd.prefix))
 				}
 				sort.Strings(got)
+			}
+			want := want
+			if len(rd.extra) > 0 {
+				want = append(append([]string{}, want...), rd.extra...)
+				sort.Strings(want)
 			}
 			if strings.Join(got, ",") != strings.Join(want, ",") {
 				kind := "wrong-set"
